@@ -333,3 +333,171 @@ Proof.
   rewrite He. unfold trock, upper_of, bottom_of. apply Tprofile_ext; [reflexivity|].
   rewrite <- Hdcap. ring.
 Qed.
+
+(* ------------------------------------------------------------------------------------------------ *)
+(* D. the magnitude heuristics always produce well-formed layers *)
+
+Lemma norm_gradient_pos g : 0 < norm_gradient g.
+Proof.
+  unfold norm_gradient, tiny_gradient. cbv zeta.
+  destruct (Qltb 1 g); match goal with |- context [Qltb ?a ?b] => destruct (Qltb_spec a b) end; lra.
+Qed.
+
+Lemma norm_thickness_pos t : 0 < t -> 0 < norm_thickness t.
+Proof. intros H. unfold norm_thickness. destruct (Qltb t 100); lra. Qed.
+
+(* in-range values keep their documented meaning: degC/km above 1, km below 100 *)
+Lemma norm_gradient_per_km g : 1 < g -> g <= 500 -> norm_gradient g == g / 1000.
+Proof.
+  intros H1 H2. unfold norm_gradient, tiny_gradient. cbv zeta.
+  destruct (Qltb_spec 1 g); [|lra].
+  assert (1 # 1000 < g / 1000) by (apply Qlt_shift_div_l; lra).
+  destruct (Qltb_spec (g / 1000) (1 # 1000000)); [lra|reflexivity].
+Qed.
+
+Lemma norm_thickness_km t : t < 100 -> norm_thickness t == t * 1000.
+Proof. intros H. unfold norm_thickness. destruct (Qltb_spec t 100); [reflexivity|lra]. Qed.
+
+Lemma merge_length : forall ds us, length (merge ds us) = length ds.
+Proof.
+  induction ds as [|d ds IH]; intros us; destruct us as [|[v|] us]; cbn; try reflexivity; rewrite IH; reflexivity.
+Qed.
+
+Definition user_pos (us : list (option Q)) : Prop := forall v, In (Some v) us -> 0 < v.
+
+Lemma merge_pos : forall ds us, Forall (fun t => 0 < t) ds -> user_pos us -> Forall (fun t => 0 < t) (merge ds us).
+Proof.
+  induction ds as [|d ds IH]; intros us Hd Hu; destruct us as [|[v|] us]; cbn; try assumption; try constructor.
+  - apply Hu. left. reflexivity.
+  - apply IH. inversion Hd; assumption. intros w Hw. apply Hu. right. exact Hw.
+  - inversion Hd; assumption.
+  - apply IH. inversion Hd; assumption. intros w Hw. apply Hu. right. exact Hw.
+Qed.
+
+Lemma set_nth_length : forall i v l, length (set_nth i v l) = length l.
+Proof. induction i; intros v [|x l]; cbn; try reflexivity. rewrite IHi. reflexivity. Qed.
+
+Lemma set_nth_Forall (P : Q -> Prop) : forall i v l, P v -> Forall P l -> Forall P (set_nth i v l).
+Proof.
+  induction i; intros v [|x l] Hv Hl; cbn; try constructor; inversion Hl; subst; try assumption.
+  apply IHi; assumption.
+Qed.
+
+Lemma set_nth_nth : forall i v l, (i < length l)%nat -> nth i (set_nth i v l) 0 = v.
+Proof. induction i; intros v [|x l] H; cbn in *; try lia. reflexivity. apply IHi. lia. Qed.
+
+Lemma Forall_map_q (P : Q -> Prop) (f : Q -> Q) l : (forall x, P (f x)) -> Forall P (map f l).
+Proof. intros H. induction l; cbn; constructor; auto. Qed.
+
+Lemma gradients_of_ok i : gs_ok (gradients_of i) /\ length (gradients_of i) = 4%nat.
+Proof.
+  split. apply Forall_map_q. apply norm_gradient_pos.
+  unfold gradients_of. rewrite map_length, merge_length. reflexivity.
+Qed.
+
+Lemma default_thicknesses_pos : Forall (fun t => 0 < t) default_thicknesses.
+Proof. unfold default_thicknesses. repeat constructor. Qed.
+
+Lemma thicknesses_of_ok i : user_pos (bi_thick i) -> (1 <= bi_n i)%nat ->
+  ths_ok (thicknesses_of i) /\ (bi_n i <= length (thicknesses_of i))%nat /\
+  nth (bi_n i - 1) (thicknesses_of i) 0 = bottom_thickness.
+Proof.
+  intros Hu Hn. unfold thicknesses_of, norm_thicknesses. cbv zeta.
+  set (raw := merge default_thicknesses (bi_thick i)).
+  assert (Hraw : Forall (fun t => 0 < t) raw) by (apply merge_pos; [apply default_thicknesses_pos|assumption]).
+  set (l := map norm_thickness raw ++ repeat bottom_thickness (bi_n i - length (map norm_thickness raw))).
+  assert (Hl : Forall (fun t => 0 < t) l).
+  { unfold l. apply Forall_app. split.
+    - clear l. induction Hraw; cbn; constructor; [apply norm_thickness_pos; assumption|assumption].
+    - apply Forall_forall. intros x Hx. apply repeat_spec in Hx. subst. unfold bottom_thickness. lra. }
+  assert (Hlen : (bi_n i <= length l)%nat).
+  { unfold l. rewrite app_length, repeat_length. lia. }
+  split; [|split].
+  - apply set_nth_Forall; [unfold bottom_thickness; lra|assumption].
+  - rewrite set_nth_length. exact Hlen.
+  - apply set_nth_nth. lia.
+Qed.
+
+Lemma nth_le_sum_firstn : forall n (l : list Q) i, Forall (fun t => 0 <= t) l -> (i < n)%nat -> (n <= length l)%nat ->
+  nth i l 0 <= sumQ (firstn n l).
+Proof.
+  induction n; intros l i HF Hi Hn. lia.
+  destruct l as [|x l]; [cbn in Hn; lia|]. inversion HF; subst. cbn [firstn sumQ].
+  assert (Hs : 0 <= sumQ (firstn n l)).
+  { clear - H2. revert l H2. induction n; intros l H2; cbn. lra. destruct H2; cbn. lra. specialize (IHn _ H2). lra. }
+  destruct i; cbn [nth]. lra.
+  cbn in Hn. specialize (IHn l i H2). assert (nth i l 0 <= sumQ (firstn n l)) by (apply IHn; lia). lra.
+Qed.
+
+(* the inputs the reader accepts (ranges of Reservoir.py; only what the proof needs is kept) *)
+Definition input_ok (i : bht_input) : Prop :=
+  (1 <= bi_n i <= 4)%nat /\ bi_Ts i < bi_Tmax i /\ bi_Tmax i < prefill /\
+  match bi_depth_km i with Some km => 0 < km /\ km <= 100 | None => True end /\
+  user_pos (bi_thick i).
+
+Theorem bht_of_input_correct i : input_ok i ->
+  let gs := gradients_of i in let ths := thicknesses_of i in
+  let upper := upper_of (bi_n i) gs ths in let gb := bottom_of (bi_n i) gs in
+  wf upper gb /\
+  exists T d, bht_of_input i = Good (T, d) /\
+    T == Qmin (Tprofile (bi_Ts i) upper gb (depth_metres (bi_depth_km i))) (bi_Tmax i) /\
+    T <= bi_Tmax i /\
+    d == capped_depth (bi_Ts i) (bi_Tmax i) upper gb (depth_metres (bi_depth_km i)).
+Proof.
+  intros [Hn [HT [Hpre [Hd Hu]]]]. cbv zeta.
+  destruct (gradients_of_ok i) as [Hgs Hgl].
+  destruct (thicknesses_of_ok i Hu (proj1 Hn)) as [Hths [Htl Hbot]].
+  assert (Hwf : wf (upper_of (bi_n i) (gradients_of i) (thicknesses_of i)) (bottom_of (bi_n i) (gradients_of i))).
+  { apply wf_of_lists; [lia|assumption|assumption]. }
+  split; [exact Hwf|].
+  assert (Hdm : 0 < depth_metres (bi_depth_km i) /\ depth_metres (bi_depth_km i) <= bottom_thickness).
+  { unfold depth_metres, default_depth, bottom_thickness. destruct (bi_depth_km i) as [km|]; lra. }
+  destruct (bht_code_refines (bi_n i) (bi_Ts i) (bi_Tmax i) (gradients_of i) (thicknesses_of i)
+              (depth_metres (bi_depth_km i))) as [T [d [Hc [Hdc HTr]]]]; try assumption; try lia; try apply Hdm.
+  { pose proof (nth_le_sum_firstn (bi_n i) (thicknesses_of i) (bi_n i - 1) (ths_ok_nonneg _ Hths)) as Hs.
+    rewrite Hbot in Hs. assert (bottom_thickness <= sumQ (firstn (bi_n i) (thicknesses_of i))) by (apply Hs; lia).
+    destruct Hdm. lra. }
+  exists T, d. unfold bht_of_input. split; [exact Hc|].
+  rewrite HTr. split; [apply trock_is_min; [assumption|lra]|].
+  split; [apply trock_le_Tmax; [assumption|lra]|exact Hdc].
+Qed.
+
+(* with a reservoir depth in the input file the result is the property's right-hand side *)
+Theorem bht_meets_spec_partial i km : input_ok i -> bi_depth_km i = Some km ->
+  exists T d, bht_of_input i = Good (T, d) /\ T == bht_spec i.
+Proof.
+  intros Hok Hkm. destruct (bht_of_input_correct i Hok) as [Hwf [T [d [Hc [HT _]]]]].
+  exists T, d. split; [exact Hc|]. rewrite HT. unfold bht_spec. cbv zeta.
+  destruct Hok as [_ [_ [_ [Hd _]]]]. rewrite Hkm in *. cbn [depth_metres depth_denoted_metres].
+  rewrite Tprofile_eq_integral; [reflexivity|apply (wf_thick_nonneg _ _ Hwf)|lra].
+Qed.
+
+(* without it the pinned code walks down 3 m instead of the 3 km the default denotes *)
+Definition default_depth_witness : bht_input :=
+  {| bi_n := 1; bi_Ts := 15; bi_Tmax := 400; bi_depth_km := None; bi_grad := [Some 50]; bi_thick := [] |}.
+
+Theorem bht_default_depth_refuted :
+  exists i, input_ok i /\ bi_depth_km i = None /\
+            exists T d, bht_of_input i = Good (T, d) /\ ~ T == bht_spec i.
+Proof.
+  exists default_depth_witness. split.
+  - unfold input_ok, default_depth_witness, prefill, user_pos. cbn. repeat split; try lia; try lra.
+  - split; [reflexivity|]. eexists. eexists. split. vm_compute. reflexivity. vm_compute. discriminate.
+Qed.
+
+(* the depth is reduced exactly when needed *)
+Theorem cap_exact Ts Tmax upper gb depth : wf upper gb -> Ts <= Tmax ->
+  (Tprofile Ts upper gb depth <= Tmax ->
+     Tprofile Ts upper gb (capped_depth Ts Tmax upper gb depth) == Tprofile Ts upper gb depth) /\
+  (Tmax < Tprofile Ts upper gb depth ->
+     capped_depth Ts Tmax upper gb depth < depth /\
+     Tprofile Ts upper gb (capped_depth Ts Tmax upper gb depth) == Tmax).
+Proof.
+  intros Hwf HT. split; intros H.
+  apply capped_depth_unchanged; assumption. apply capped_depth_reduced; assumption.
+Qed.
+
+Theorem heuristics_keep_documented_units :
+  (forall g, 1 < g -> g <= 500 -> norm_gradient g == g / 1000) /\
+  (forall t, t < 100 -> norm_thickness t == t * 1000).
+Proof. split. exact norm_gradient_per_km. exact norm_thickness_km. Qed.
